@@ -16,9 +16,9 @@ Proof. unfold reqb; destruct (Req_EM_T a b); split; intros; try easy. Qed.
 
 (* ---------------------------------------------------------------- radians / degrees *)
 Lemma PI_neq0' : PI <> 0. Proof. pose proof PI_RGT_0; lra. Qed.
-Lemma rad_deg x : rad (deg x) = x.
+Lemma rad_deg_id x : rad (deg x) = x.
 Proof. unfold rad, deg. field. apply PI_neq0'. Qed.
-Lemma deg_rad x : deg (rad x) = x.
+Lemma deg_rad_id x : deg (rad x) = x.
 Proof. unfold rad, deg. field. apply PI_neq0'. Qed.
 Lemma rad_plus x y : rad (x + y) = rad x + rad y. Proof. unfold rad; ring. Qed.
 Lemma rad_minus x y : rad (x - y) = rad x - rad y. Proof. unfold rad; ring. Qed.
